@@ -169,6 +169,11 @@ func main() {
 		wireMain()
 		return
 	}
+	if len(os.Args) > 1 && os.Args[1] == "scan" {
+		os.Args = append(os.Args[:1], os.Args[2:]...)
+		scanMain()
+		return
+	}
 	if len(os.Args) > 2 && os.Args[1] == "script" {
 		out = bufio.NewWriterSize(os.Stdout, 1<<20)
 		defer out.Flush()
